@@ -428,6 +428,13 @@ func c17SpecialSites(c *Ctx, now int) {
 				c.Tie(fmt.Sprintf("c17site %s %s %s", vis, ob, abs), c17SiteSkeleton(sites[vis], ranks[vis], c17SourcePagesOf(gdoc)))
 				c.Count("site-skeleton/colliding-names/" + vis)
 			}
+			c17StatsCheck(c, gdoc, abs, ob, groups, sites, -1, -1, func(m map[string]interface{}) map[string]interface{} {
+				if m == nil {
+					m = map[string]interface{}{}
+				}
+				m["gedcom"] = text
+				return m
+			})
 		}
 	}
 }
